@@ -16,9 +16,9 @@ P = {
  "C04": ("other", "E4 per-key table extraction (SCCP) compared with an independent vertex-sharing topology model + E1 guards + provenance of the glue",
   "Decides for all cells and depths (unbounded inputs stay symbolic): out-of-range cell numbers are rejected by neighbours/neighbour; the MainWind direction algebra; every entry of the three seam tables (12 base cells x 9 directions) equals the neighbour derived from the HEALPix vertex topology at nside 2, 4, 8 (which pins the symbolic form, hence every depth); the base-cell tables in lib.rs agree; the glue passes (i+di, j+dj) and the base-cell direction in the right slots. What remains informal is the composition of these verified pieces along neighbours()'s top-level control flow.", "§5 C04"),
  "C05": ("other", "control dependence + provenance over MIR (necessary conditions only)",
-  "Necessary conditions of the no-miss claim, decided on the code: a cell is discarded only on the failed comparison with the OUTER threshold (radius + cell bound); all four children are visited; the per-depth bound is indexed in step with the depth; the same radius is used everywhere; the custom variant keeps a coarse cell whenever a deeper one maps to it. The geometric claim itself (bounds are bounds, haversine rounding) is not decided.", "§5 C05"),
+  "Necessary conditions of the no-miss claim, decided on the code: a cell is discarded only on the failed comparison with the OUTER threshold (radius + cell bound); all four children are visited; the per-depth bound is indexed in step with the depth; the same radius is used everywhere; the custom variant keeps a coarse cell whenever a deeper one maps to it; the outer threshold argument is clamped at pi; every haversine call site passes the cosines of the right latitudes; the depth-0 bound agrees across the sibling helpers. The geometric claim itself (bounds are bounds, haversine rounding) is not decided.", "§5 C05"),
  "C06": ("other", "E1 facts + control dependence + must-pass-through on def-use chains",
-  "Decides: radius >= pi returns exactly push_all(0, 0, 12, true); 'full' is pushed only under the inner threshold; every push is under one of the two thresholds; every returned BMOC passes through pack. Geometric correctness of the thresholds and pack's fixpoint are not decided.", "§5 C06"),
+  "Decides: radius >= pi returns exactly push_all(0, 0, 12, true); 'full' is pushed only under the inner threshold; every push is under one of the two thresholds; the 'no full cell' sentinel makes the full test unsatisfiable; the small-cone branch sorts, then de-duplicates, then pushes; every returned BMOC passes through pack, which merges only four full siblings under the exact look-ahead bound. Geometric correctness of the thresholds and pack's fixpoint are not decided.", "§5 C06"),
  "C07": ("other", "E4 truth tables at emission sites + must-pass-through on loop back edges (necessary conditions only)",
   "Necessary conditions of the set-algebra claim: or/xor return through pack; full/full flag rules per operator; every cycle of the merge loops advances a cursor; drains follow or/xor. Equality with the set operation for all pairs of trees is not decided.", "§5 C07"),
  "C08": ("other", "E4 truth tables of the emitted flag at every emission site (site-level necessary conditions)",
@@ -26,11 +26,11 @@ P = {
  "C09": ("other", "E5 GF(2) bit-vector proofs of the cell codec for all depth pairs + E3 ordered-emission shape + who-may-construct",
   "Proves for all 465 (depth <= depth_max) pairs and all hash bits: every decoder inverts build_raw_value. Necessary conditions: producers emit in z-order (recursion shape, sorted roots), BMOC values are only constructed by the builder finalisers, views share the proved decoders.", "§5 C09"),
  "C10": ("other", "E7 lossy int->f64->sqrt->int chain rule + use-def identity of region boundaries",
-  "Necessary conditions: every float square root used as a ring index is either exact (operand < 2^52) or corrected against the integer it came from; to_ring and from_ring use the same two boundary terms and one triangular-number definition. Bijectivity / ordering are not decided.", "§5 C10"),
+  "Necessary conditions: on every returning path a float square root used as a ring index is either exact (operand < 2^52 under the facts of that path) or corrected against the integer it came from; no 32-bit product/shift/sum of the ring arithmetic can wrap for depth <= 29; to_ring and from_ring use the same two boundary terms and one triangular-number definition. Bijectivity / ordering are not decided.", "§5 C10"),
  "C11": ("other", "E1 must-facts + E7 + closed-form identities",
   "Decides: out-of-range cell numbers, latitudes and offsets never reach a normal return of the RING accessors; necessary: exact integer square root in center_of_projected_cell. Containment / round trip are not decided.", "§5 C11"),
  "C12": ("other", "control dependence + sortedness typestate + provenance (necessary conditions only)",
-  "Necessary conditions: a cell in the vertex-cell list is never discarded; the list is built from every polygon vertex and sorted before binary search; 'full' only under n == 4 vertices inside; roots sorted. Tightness and the point-in-polygon predicate are not decided.", "§5 C12"),
+  "Necessary conditions: a cell in the vertex-cell list is never discarded; the list is built from every polygon vertex and sorted before binary search; 'full' only under n == 4 vertices inside; roots sorted; every polygon vertex enters the maximum that sizes the bounding cone. Tightness and the point-in-polygon predicate are not decided.", "§5 C12"),
  "C13": ("other", "E1 must-facts + typestate/shape rules",
   "Decides: a semi-major axis >= pi/2 never reaches a normal return of any of the five entry points (both profiles in thorough), and the ellipse is only constructed under the guard. Necessary: ordered emission, packed result, 'full' only if contains_cone or all four vertices inside. Geometry not decided.", "§5 C13"),
  "C14": ("other", "E5 bit-vector proofs per delta_depth + E4 tables vs topology model + E1 domain guard",
@@ -38,9 +38,9 @@ P = {
  "C15": ("other", "E5 bit-vector proofs of lower-depth re-encoding + must-pass-through (necessary conditions only)",
   "Proves the raw-value re-encoding when lowering depth for all triples; necessary: to_bmoc returns Some after any drain, drains merge with `or`, pack only merges four full siblings. Coverage equality for all push sequences is not decided.", "§5 C15"),
  "C16": ("other", "control dependence on the unrolled decision tree + table data check + E1",
-  "Decides for all radii: each leaf of best_starting_depth returns the deepest depth whose tabulated limit exceeds r (given the table is strictly decreasing, which is checked on the data), and the refusal matches has_best_starting_depth. That the table values bound real cell sizes is not decided.", "§5 C16"),
+  "Decides for all radii: each leaf of best_starting_depth returns the deepest depth whose tabulated limit exceeds r (given the table is strictly decreasing, which is checked on the data), and the refusal matches has_best_starting_depth; necessary: the table follows the 1/nside pattern to second order, the sibling helpers agree on the depth-0 and polar-cap bounds, and with debug assertions on no path pins an input-derived value to a single point. That the table values bound real cell sizes is not decided.", "§5 C16"),
  "C17": ("other", "E1 must-facts + E8 floor-linear forms",
-  "Decides: arguments outside [-pi/2,pi/2] / [-2,2] never reach a normal return of proj/unproj. Necessary: the longitude reduction yields offset in [0,7] and remainder in [-1,1] for up to 8 turns. The formulae and the inverse property are not decided.", "§5 C17"),
+  "Decides: arguments outside [-pi/2,pi/2] / [-2,2] never reach a normal return of proj/unproj. Necessary: the longitude reduction yields offset in [0,7] and remainder in [-1,1] for up to 8 turns; base_cell_from_proj_coo read as a lookup table equals the topology model on 48 points including the diagonal seams. The formulae and the inverse property are not decided.", "§5 C17"),
  "C18": ("proof", "E5 GF(2)-affine bit-vector abstract interpretation of every ZOrderCurve impl + E4 dispatch extraction + per-depth symbolic uniq round trip",
   "Every clause of the statement is decided for all inputs: for each implementation in the default, +bmi2 (and cfg(test)) builds the derived bit-vector of i02h/oj2h/ij2h/ij2i∘h2ij/ij2j∘h2ij equals the interleave specification on the coordinate width the dispatcher uses it for; get_zoc's selection is extracted for the 30 depths and rejects depth > 29; uniq and IVOA uniq round trips hold per depth with the hash symbolic.", "§5 C18"),
  "C19": ("proof", "E6 polynomial identities over (dx, dy) per arm + E4 arm extraction",
